@@ -27,27 +27,30 @@
 
 using pbt::Ctx; using pbt::Bytes;
 
-extern "C" { void iof_fsize_limit(long bytes); extern int iof_armed, iof_kind, iof_fault, iof_hit, iof_min_fd, iof_kind2, iof_fault2; extern long iof_k, iof_k2, iof_count[4]; }
+extern "C" { void iof_fsize_limit(long bytes); void iof_reset_eof(void); extern int iof_armed, iof_kind, iof_fault, iof_hit, iof_min_fd, iof_kind2, iof_fault2; extern long iof_k, iof_k2, iof_count[4]; }
 static const char *KIND[] = {"read", "write", "lseek", "ftruncate"};
-static const char *FAULT[] = {"EIO", "ENOSPC", "EINTR", "short(half)", "short(1 byte)", "short(0 bytes)"};
+static const char *FAULT[] = {"EIO", "ENOSPC", "EINTR", "short(half)", "short(1 byte)", "short(0 bytes) / end of file from here on"};
 
 struct Plan { int kind = -1; long k = 0; int fault = 0; int kind2 = -1; long k2 = 0; int fault2 = 0; long fsize = -1;      // fsize: file-size limit in force while the library runs (disk full / quota at that byte)
     std::string str() const { if (fsize >= 0) return "no file may grow beyond " + std::to_string(fsize) + " bytes (EFBIG past that)"; if (kind < 0) return "no fault"; std::string s = std::string(KIND[kind]) + " #" + std::to_string(k) + " -> " + FAULT[fault]; if (kind2 >= 0) s += " and " + std::string(KIND[kind2]) + " #" + std::to_string(k2) + " -> " + FAULT[fault2]; return s; } };
 static bool g_limited = false;
-static void arm(const Plan &p) { for (auto &x : iof_count) x = 0; iof_hit = 0; iof_kind = p.kind; iof_k = p.k; iof_fault = p.fault; iof_kind2 = p.kind2; iof_k2 = p.k2; iof_fault2 = p.fault2; iof_armed = 1; if (p.fsize >= 0) { iof_fsize_limit(p.fsize); g_limited = true; } }
+static void arm(const Plan &p) { iof_reset_eof(); for (auto &x : iof_count) x = 0; iof_hit = 0; iof_kind = p.kind; iof_k = p.k; iof_fault = p.fault; iof_kind2 = p.kind2; iof_k2 = p.k2; iof_fault2 = p.fault2; iof_armed = 1; if (p.fsize >= 0) { iof_fsize_limit(p.fsize); g_limited = true; } }
 static void disarm() { iof_armed = 0; if (g_limited) { iof_fsize_limit(-1); g_limited = false; } }
 
 // a scenario: run(plan) -> "" or violation text; counts of the fault-free run are left in iof_count
 struct Scenario { std::string name; std::function<std::string(const Plan &)> run; std::shared_ptr<std::vector<long>> limits = std::make_shared<std::vector<long>>(); };   // limits: file sizes worth cutting at, filled in by the fault-free run
 
-static std::vector<int> faults_for(int kind) { if (kind == 0) return {0, 2, 3, 4}; if (kind == 1) return {0, 1, 2, 3, 4, 5}; return {0}; }
+static bool g_eof_fault = false;      // reads may also hit a premature end of file (0 bytes): only where every read is of a structure of known length
+static std::vector<int> faults_for(int kind) { if (kind == 0) return g_eof_fault ? std::vector<int>{0, 2, 3, 4, 5} : std::vector<int>{0, 2, 3, 4}; if (kind == 1) return {0, 1, 2, 3, 4, 5}; return {0}; }
 
 // ---- S1 writer
 static Scenario s_write(Ctx &c) {
     auto D = std::make_shared<Bytes>(gen::content(c, 90000).data); auto cfg = std::make_shared<lib::WCfg>(gen::wcfg(c, *D));
     if (cfg->level > 5) cfg->level = 3; if (cfg->chunk_max > 0 && cfg->chunk_max < 64) cfg->chunk_max = 64;
     auto ops = std::make_shared<std::vector<lib::WOp>>(gen::whistory(c, D->size(), cfg->manual)); if (ops->size() > 60) { ops->resize(60); }
-    Scenario s; s.name = "S1 write: D[" + std::to_string(D->size()) + "] cfg{" + cfg->str() + "}"; auto lim = s.limits;
+    // a caller that does not give up: a failed call is answered with zck_clear_error() and, if the context lets it, the same call again
+    bool persistent = c.gver >= 4 && c.rarely(3);
+    Scenario s; s.name = "S1 write: D[" + std::to_string(D->size()) + "] cfg{" + cfg->str() + "}" + (persistent ? " caller clears errors and retries" : ""); auto lim = s.limits;
     // the output as a regular file in the directory the library puts its temporary file in (same file system, so in-kernel copies
     // between the two are possible), or an anonymous memory file
     bool regular_out = c.gver >= 4 && c.boolean(); if (regular_out) { s.name += " output=regular file next to the temporary file"; setenv("TMPDIR", "/dev/shm", 1); }
@@ -59,9 +62,10 @@ static Scenario s_write(Ctx &c) {
         if (!zck_init_write(z, out)) good = false;
         std::string e; if (good && !lib::apply_cfg(z, *cfg, e)) { disarm(); zck_free(&z); close(out); return ""; }      // refused configuration: outside the property
         size_t off = 0;
-        if (good) for (auto &op : *ops) { if (op.end) { if (zck_end_chunk(z) < 0) { good = false; break; } } else { size_t n = std::min(op.n, D->size() - off); if (zck_write(z, (const char *)D->data() + off, n) != (ssize_t)n) { good = false; break; } off += n; } }
+        auto again = [&]() { return persistent && zck_clear_error(z); };
+        if (good) for (auto &op : *ops) { if (op.end) { if (zck_end_chunk(z) < 0 && !(again() && zck_end_chunk(z) >= 0)) { good = false; break; } } else { size_t n = std::min(op.n, D->size() - off); if (zck_write(z, (const char *)D->data() + off, n) != (ssize_t)n && !(again() && zck_write(z, (const char *)D->data() + off, n) == (ssize_t)n)) { good = false; break; } off += n; } }
         if (good && off < D->size() && zck_write(z, (const char *)D->data() + off, D->size() - off) != (ssize_t)(D->size() - off)) good = false;
-        if (good && !zck_close(z)) good = false;
+        if (good && !zck_close(z) && !(again() && zck_close(z))) good = false;
         disarm();
         std::string res;
         if (good) { Bytes f = lib::fd_bytes(out); ref::ParseResult pr = ref::parse(f); ref::Decoded d; if (pr.ok) d = ref::decode(f, pr.h);
@@ -86,6 +90,24 @@ static Scenario s_read(Ctx &c) {
         disarm(); zck_free(&z); close(fd);
         if (good && got != Z->D) return "open, every read and close succeeded but " + std::to_string(got.size()) + " bytes were returned, the content has " + std::to_string(Z->D.size());
         return "";
+    };
+    return s;
+}
+// ---- S7 chunk access (data / stored data of single chunks) on a complete file
+static Scenario s_chunk_access(Ctx &c) {
+    gen::ZFileOpts o; o.max_chunks = 6; o.max_chunk = c.boolean() ? 300 : 70000; o.allow_empty = false; auto Z = std::make_shared<gen::ZFile>(gen::zfile(c, o));
+    auto reqs = std::make_shared<std::vector<std::pair<size_t, bool>>>(); size_t nr = 1 + c.draw(4); for (size_t i = 0; i < nr; i++) reqs->push_back({c.pick(Z->nchunks()), c.boolean()});
+    Scenario s; s.name = "S7 chunk access: {" + Z->desc + "} " + std::to_string(nr) + " requests";
+    s.run = [=](const Plan &p) -> std::string {
+        int fd = lib::mkfd(Z->file); zckCtx *z = zck_create(); std::string res;
+        arm(p);
+        if (zck_init_read(z, fd)) for (auto &rq : *reqs) { zckChunk *ch = zck_get_chunk(z, rq.first); if (!ch) break;
+            size_t want = rq.second ? Z->clen(rq.first) : Z->plain[rq.first].size(); std::vector<char> b(want + 1, 0x5a);
+            ssize_t r = rq.second ? zck_get_chunk_comp_data(ch, b.data(), want) : zck_get_chunk_data(ch, b.data(), want);
+            const uint8_t *truth = rq.second ? Z->file.data() + Z->off(rq.first) : Z->plain[rq.first].data();
+            if (r == (ssize_t)want && want && memcmp(b.data(), truth, want) != 0) { res = std::string(rq.second ? "zck_get_chunk_comp_data" : "zck_get_chunk_data") + "(chunk " + std::to_string(rq.first) + ") reported all " + std::to_string(want) + " bytes but they are not the chunk's"; break; }
+            if (r < 0 && !zck_clear_error(z)) break; }
+        disarm(); zck_free(&z); close(fd); return res;
     };
     return s;
 }
@@ -168,9 +190,10 @@ struct ToolScn { std::string name, tool, dir; std::vector<std::string> args; std
 
 static void prop(Ctx &c) {
     uint64_t which = c.draw(9);
+    g_eof_fault = c.gver >= 4 && which >= 2 && which != 7;      // not the writer (reads only its own temporary file) and not the zck tool (its input is a stream: end of file is just the end)
     uint64_t evals = 0, reached = 0; std::string fsig, fmsg;
     if (which <= 6) {
-        Scenario s = which <= 1 ? s_write(c) : which == 2 ? s_read(c) : which == 3 ? s_validate(c) : which == 4 ? s_copy(c) : which == 5 ? s_download(c) : (c.boolean() ? s_read(c) : s_validate(c));
+        Scenario s = which <= 1 ? s_write(c) : which == 2 ? s_read(c) : which == 3 ? s_validate(c) : which == 4 ? s_copy(c) : which == 5 ? s_download(c) : (c.gver >= 4 && c.boolean() ? s_chunk_access(c) : c.boolean() ? s_read(c) : s_validate(c));
         c.desc << s.name; c.checkpoint();
         Plan none; std::string e0 = s.run(none); long N[4] = {iof_count[0], iof_count[1], iof_count[2], iof_count[3]};
         if (!e0.empty()) c.fail("fault-free-run", "without any fault: " + e0);
